@@ -17,7 +17,7 @@ class C07(Prop):
     diverge_is_violation = True
     level_text = ("Theorems for every layout and every start: under the line geometry (l complete lines of b bytes / r residues before the target line) seeking to doff + l*b [+ (start-1)%r] and skipping start - actual_start residues delivers the record's residues from residue `start` on, in the residue, line and brute-force addressing cases; "
                   "esl_ssi_FindSubseq's three cases are exactly that arithmetic; absent key => eslENOTFOUND, start outside 1..L => eslERANGE, for every file and index; the tracker's guarantee (every line followed by another terminated line has rpl residues) and two decide-checked counter-examples showing it does NOT bound last lines. "
-                  "The executable model of PositionByKey/ByNumber/Fetch/FetchInfo/FetchSubseq/read_nres is tied to the working tree by an exact differential run against a real SSI index built by esl-sfetch's create_ssi_index, all (key,start,end) on small files, and a fetch = slice-of-sequential-scan monitor (incl. esl-sfetch's own subsequence path with reverse complement).")
+                  "The executable model of PositionByKey/ByNumber/Fetch/FetchInfo/FetchSubseq/read_nres is tied to the working tree by an exact differential run against a real SSI index built by esl-sfetch's create_ssi_index, all (key,start,end) on small files, and a fetch = slice-of-sequential-scan monitor (incl. esl-sfetch's own whole-record path = PositionByKey + Read + esl_sqio_Echo, and its subsequence path with reverse complement; Echo'd bytes = bytes roff..eoff of the file).")
     level_note = ("FetchSubseq = slice of the scan is established by the differential run + monitor, not by a theorem about the whole reader. FASTA, EMBL/UniProt, GenBank/DDBJ (accessions as aliases); esl-afetch / Stockholm databases (1..20 quick, ..50 thorough alignments, names + accessions, prefix names) are covered by the harness + monitor only (real index built by esl-afetch's create_ssi_index, fetched entry = the entry of that name/accession, absent key => eslENOTFOUND), no model; the SSI file itself is C06. "
                   "Known finding (genuine defect, repair not small): seebuf's bpl/rpl tracker accepts a last/only line longer than rpl, FetchSubseq then returns other residues with eslOK - witnesses in known_findings.d/C07.json, theorem carried as bplrpl_sound_partial + bplrpl_unsound_*.")
     assumptions = ["the SSI index returns what create_ssi_index stored (C06)", "fread returns min(B, remaining) bytes; allocation never fails",
@@ -121,6 +121,10 @@ class C07(Prop):
                 k = hx(r["name"].encode())
                 L = len(r["seq"])
                 ops.append(rng.choice(["fetch key=%s", "fetchinfo key=%s"]) % k)
+                if ops[-1].startswith("fetch key") and rng.random() < 0.7:
+                    ops.append("echo")            # esl_sqio_Echo of the record just fetched: the bytes roff..eoff of the file
+                if abc == "text" and rng.random() < 0.6:
+                    ops.append("toolfetch key=%s" % k)   # esl-sfetch's own whole-record path
                 ops += ["poskey key=%s" % k, rng.choice(["read", "readinfo", "readseq"])]
                 bad = rng.choice([(0, 1), (L + 1, L + 1), (1, L + 1), (2, 1) if L >= 2 else (0, 0), (-3, 1), (L + 5, 0), (L, L + 2), (0, 0)])
                 ops.append("fetchsub key=%s s=%d e=%d" % ((k,) + bad))
